@@ -435,6 +435,9 @@ func bashEquiv(r *Run, c *gosym.Ctx, sh Shape, o eqOpts) (out eqOutcome) {
 		return
 	}
 	obs = append(obs, ob{eqOutT, "stdout"})
+	if os.Getenv("VERIF_DEBUG") == "2" {
+		fmt.Fprintf(os.Stderr, "DEBUG shape %s: script stdout %q | reference stdout %q | equal=%v\n", sh.Name, shOut.String(), refOut.String(), eqOutT.IsTrue())
+	}
 	switch s := shStatus.(type) {
 	case int64:
 		obs = append(obs, ob{B.Bool(s == in.Exit), fmt.Sprintf("exit status (script %d, reference %d)", s, in.Exit)})
